@@ -505,18 +505,10 @@ func (e *fnEnc) havocLocation(st *state, ex Expr, env *specEnv) {
 		e.fail("assigns: unsupported location %s", ex)
 	}
 	base := e.evalAddrBase(sel.X, env)
-	pt, ok := types.Unalias(base.typ).Underlying().(*types.Pointer)
-	if !ok || !isStructType(pt.Elem()) {
-		e.fail("assigns %s: base must be a pointer to struct", ex)
-	}
-	si := e.structOf(pt.Elem())
-	i := si.fieldIndex(sel.Name)
-	if i < 0 {
-		e.fail("assigns %s: no such field", ex)
-	}
+	si, i, ref := e.fieldLoc(base, sel.Name)
 	f := si.fields[i]
 	if f.embStruct {
-		e.havocObject(st, SVal{t: e.embApp(si, i, base.t), typ: types.NewPointer(f.typ)})
+		e.havocObject(st, SVal{t: e.embApp(si, i, ref), typ: types.NewPointer(f.typ)})
 		return
 	}
 	comp, s := e.fieldComp(si, i)
@@ -524,7 +516,7 @@ func (e *fnEnc) havocLocation(st *state, ex Expr, env *specEnv) {
 	if f.typ != nil {
 		e.assert(e.rangeOf(nv, f.typ))
 	}
-	e.heapSet(st, comp, store(e.heapGet(st, comp, s), base.t, nv))
+	e.heapSet(st, comp, store(e.heapGet(st, comp, s), ref, nv))
 }
 
 // havocComponentByName: "T.f" -> whole heap component for field f of struct T.
@@ -933,16 +925,12 @@ func (e *fnEnc) assignsTargets() (map[string][]Term, bool) {
 				e.fail("assigns: unsupported location %s", txt)
 			}
 			base := e.evalAddrBase(sel.X, env)
-			si := e.structOf(ptrElem(base.typ))
-			i := si.fieldIndex(sel.Name)
-			if i < 0 {
-				e.fail("assigns %s: no such field", txt)
-			}
+			si, i, ref := e.fieldLoc(base, sel.Name)
 			if si.fields[i].embStruct {
-				addObj(e.structOf(si.fields[i].typ), e.embApp(si, i, base.t))
+				addObj(e.structOf(si.fields[i].typ), e.embApp(si, i, ref))
 			} else {
 				comp, _ := e.fieldComp(si, i)
-				out[comp] = append(out[comp], base.t)
+				out[comp] = append(out[comp], ref)
 			}
 		}
 	}
@@ -1209,4 +1197,36 @@ func (e *fnEnc) alwaysObligations(c *blockCtx, in ssa.Instruction) {
 		nm, _ := e.calleeName(callCommon(in))
 		e.obligation("always", fmt.Sprintf("%s:after %s#%d", clauseLabel(cl, i), shortCallee(nm), e.alwaysCount), c.reach, e.evalBool(cl.E, env), cl.Text, e.posOf(in), false)
 	}
+}
+
+// fieldLoc resolves obj.name to the struct that directly holds the field,
+// following promoted fields through embedded (inline) structs.
+func (e *fnEnc) fieldLoc(base SVal, name string) (*structInfo, int, Term) {
+	pt, ok := types.Unalias(base.typ).Underlying().(*types.Pointer)
+	if !ok || !isStructType(pt.Elem()) {
+		e.fail("location base must be a pointer to struct, got %s", base.typ)
+	}
+	si := e.structOf(pt.Elem())
+	if i := si.fieldIndex(name); i >= 0 {
+		return si, i, base.t
+	}
+	var pkg *types.Package
+	if n, ok := types.Unalias(pt.Elem()).(*types.Named); ok {
+		pkg = n.Obj().Pkg()
+	}
+	obj, path, _ := types.LookupFieldOrMethod(pt.Elem(), true, pkg, name)
+	if v, ok := obj.(*types.Var); !ok || !v.IsField() || len(path) < 2 {
+		e.fail("no field %s in %s", name, pt.Elem())
+	}
+	ref := base.t
+	cur := si
+	for _, idx := range path[:len(path)-1] {
+		f := cur.fields[idx]
+		if !f.embStruct {
+			e.fail("promoted field %s goes through a pointer", name)
+		}
+		ref = e.embApp(cur, idx, ref)
+		cur = e.structOf(f.typ)
+	}
+	return cur, path[len(path)-1], ref
 }
